@@ -110,10 +110,16 @@ var c19SelGens = []uint{1, 957, 958, 4242}
 func c19PolicyProbeIPs() []net.IP {
 	var out []net.IP
 	seen := map[string]bool{}
+	// every IPv4 address in both forms (4 bytes written dotted, 16 bytes written ::ffff:a.b.c.d)
 	add := func(ip net.IP) {
-		if ip != nil && !seen[ip.String()] {
-			seen[ip.String()] = true
-			out = append(out, ip)
+		if ip == nil {
+			return
+		}
+		for _, f := range c19Forms(ip) {
+			if !seen[c19Host(f)] {
+				seen[c19Host(f)] = true
+				out = append(out, f)
+			}
 		}
 	}
 	for _, s := range c19CIDROk {
@@ -158,7 +164,7 @@ func c19ResolveNameUncached(n string) net.IP {
 	if err != nil || a == nil || len(a.IP) == 0 {
 		return nil
 	}
-	return a.IP
+	return c19Norm(a.IP)
 }
 
 type c19Obs struct {
@@ -298,7 +304,7 @@ func c19PolicyMatches(x *c19Ctx, o c19Obs, pol *c19Policy, ips []net.IP, hosts [
 			}
 			if want && got != "R" {
 				byAddr := (pol.AllowConfigured && !c19In(pol.Allow, ip)) || (!pol.AllowConfigured && c19In(pol.Block, ip))
-				if pol.domainRefused(ip.String()) && !byAddr {
+				if pol.domainRefused(c19Host(ip)) && !byAddr {
 					return "dropped:covert_blocklist_domains", fmt.Sprintf("covert %s matches a configured covert_blocklist_domains pattern but is not refused", c19HostPort(ip))
 				}
 				if pol.AllowConfigured {
@@ -651,6 +657,9 @@ func c19RunReload(x *c19Ctx, c c19ReloadCase, res *c19Result) {
 				mustReject = true
 				res.class("config-unparseable-entry")
 			}
+			if cl, _, _ := diskConf.cutPairs(); len(cl) > 0 {
+				res.class("config-unreadable-domain-entry-completed-by-later-entry")
+			}
 			if npol.anyRepaired() {
 				res.class("config-stray-whitespace-entry")
 			}
@@ -661,7 +670,11 @@ func c19RunReload(x *c19Ctx, c c19ReloadCase, res *c19Result) {
 			// step is judged against what is observed now
 			if diskConf != nil && !diskConf.tomlMalformed() {
 				k, e, _ := npol.anyUnreadable()
-				res.report("dropped:"+k, fmt.Sprintf("%s: the reloaded configuration was accepted although %s entry %q cannot be parsed; the previous policies must stay in force", where, k, e))
+				more := ""
+				if _, a, b := diskConf.cutPairs(); k == "covert_blocklist_domains" && a == e {
+					more = fmt.Sprintf(" (it is a pattern only when read together with the later entry %q)", b)
+				}
+				res.report("dropped:"+k, fmt.Sprintf("%s: the reloaded configuration was accepted although %s entry %q cannot be parsed%s; the previous policies must stay in force", where, k, e, more))
 			} else {
 				res.report("reload:malformed-config-accepted", fmt.Sprintf("%s: ParseConfig reported no error for a configuration file that is unreadable or not valid TOML for the configuration's types", where))
 			}
@@ -693,6 +706,13 @@ func c19RunReload(x *c19Ctx, c c19ReloadCase, res *c19Result) {
 			}
 		default:
 			res.class("step:config-accepted")
+			for _, nets := range [][]*net.IPNet{npol.Block, npol.Allow, npol.Phantom} {
+				for _, n := range nets {
+					if c19MappedNet(n) {
+						res.class("step:accepted-config-with-v4-entry-in-v6-notation")
+					}
+				}
+			}
 			if k, m := c19PolicyMatches(x, after, npol, ips, hosts); k != "" {
 				if after.policy() == obs.policy() && !strings.HasPrefix(k, "dropped:") {
 					k = "reload:policy-not-new"
@@ -865,10 +885,11 @@ func c19GenStartable(rt *rapid.T) c19Conf {
 
 // TestVerif_C19_reload: rapid-generated reload sequences.
 func TestVerif_C19_reload(t *testing.T) {
-	rec := vh.NewRec("C19", "reload", "rapid-generated sequences of 1-8 SIGHUP reloads after a start-up with a valid generated (or the shipped) configuration and subnet version: each step puts {a clean generated configuration, a dirty one (unparseable / stray-whitespace entries, bad regexps, wrong TOML types, syntax garbage), an empty file, nothing (file removed), a directory, the file left as it is} at the configuration path and {one of 4 pairwise disjoint subnet versions, a TOML syntax error, wrong types, a non-numeric generation key, nothing, a directory, unchanged} at the subnet path, then runs ParseConfig and, on success, OnReload as main.go does; clean configurations whose GeoIP database cannot be opened are a step kind of their own; after every step the GeoIP part is used (lookups, a registration through the real ingest path) and must be unchanged if it failed to load. Non-trivial = a reload in which a part failed to load after a reload in which every part loaded; distinct by sequence")
+	rec := vh.NewRec("C19", "reload", "rapid-generated sequences of 1-8 SIGHUP reloads after a start-up with a valid generated (or the shipped) configuration and subnet version: each step puts {a clean generated configuration, a dirty one (unparseable / stray-whitespace entries, bad regexps, domain patterns cut into two entries neither of which is a pattern, wrong TOML types, syntax garbage), an empty file, nothing (file removed), a directory, the file left as it is} at the configuration path and {one of 4 pairwise disjoint subnet versions, a TOML syntax error, wrong types, a non-numeric generation key, nothing, a directory, unchanged} at the subnet path, then runs ParseConfig and, on success, OnReload as main.go does; subnet entries in every notation net.ParseCIDR reads (IPv4 ranges also as IPv4-mapped IPv6), probe addresses in both forms (dotted / ::ffff:a.b.c.d); clean configurations whose GeoIP database cannot be opened are a step kind of their own; after every step the GeoIP part is used (lookups, a registration through the real ingest path) and must be unchanged if it failed to load. Non-trivial = a reload in which a part failed to load after a reload in which every part loaded; distinct by sequence")
 	defer rec.Flush()
 	rec.Require("fail-after-success", "step:config-rejected", "step:config-accepted", "step:subnets-failed", "step:subnets-replaced",
-		"config-unreadable", "config-malformed", "subnets-unreadable", "subnets-malformed", "step:geoip-failed", "step:geoip-replaced", "geoip-used-by-registration", "name-probe-resolves", "name-accepted-then-refused-by-reload")
+		"config-unreadable", "config-malformed", "subnets-unreadable", "subnets-malformed", "step:geoip-failed", "step:geoip-replaced", "geoip-used-by-registration", "name-probe-resolves", "name-accepted-then-refused-by-reload",
+		"config-unreadable-domain-entry-completed-by-later-entry", "step:accepted-config-with-v4-entry-in-v6-notation")
 	x := c19NewCtx(t)
 	if p := vh.ReplayFile(); p != "" {
 		var c c19ReloadCase
@@ -886,9 +907,10 @@ func TestVerif_C19_reload(t *testing.T) {
 
 // TestVerif_C19_reload2: every sequence of up to two reloads over a fixed alphabet of step kinds.
 func TestVerif_C19_reload2(t *testing.T) {
-	rec := vh.NewRec("C19", "reload2", "exhaustive: all sequences of 1 and 2 reloads over the alphabet {configuration: valid A, valid B (allowlist), unparseable CIDR entry, stray-whitespace entry, bad regexp, wrong TOML type, syntax error, empty file, removed, directory, valid policies + GeoIP database {missing, a directory, truncated}} x {subnets: version 1, version 2, syntax error, non-numeric generation key, removed, directory}, after a start-up with valid configuration A0 and subnet version 0; non-trivial = a failing reload after a successful one; distinct by sequence")
+	rec := vh.NewRec("C19", "reload2", "exhaustive: all sequences of 1 and 2 reloads over the alphabet {configuration: valid A, valid B (allowlist) - both with IPv4 ranges also written as IPv4-mapped IPv6 and probe addresses in both forms -, unparseable CIDR entry, stray-whitespace entry, bad regexp, a pattern cut into two entries neither of which is a pattern (well-formed entries between), wrong TOML type, syntax error, empty file, removed, directory, valid policies + GeoIP database {missing, a directory, truncated}} x {subnets: version 1, version 2, syntax error, non-numeric generation key, removed, directory}, after a start-up with valid configuration A0 and subnet version 0; non-trivial = a failing reload after a successful one; distinct by sequence")
 	defer rec.Flush()
-	rec.Require("fail-after-success", "step:config-rejected", "step:config-accepted", "step:subnets-failed", "step:subnets-replaced", "step:geoip-failed", "step:geoip-replaced", "geoip-used-by-registration", "name-probe-resolves", "name-accepted-then-refused-by-reload")
+	rec.Require("fail-after-success", "step:config-rejected", "step:config-accepted", "step:subnets-failed", "step:subnets-replaced", "step:geoip-failed", "step:geoip-replaced", "geoip-used-by-registration", "name-probe-resolves", "name-accepted-then-refused-by-reload",
+		"config-unreadable-domain-entry-completed-by-later-entry", "step:accepted-config-with-v4-entry-in-v6-notation")
 	x := c19NewCtx(t)
 	if p := vh.ReplayFile(); p != "" {
 		var c c19ReloadCase
@@ -921,11 +943,12 @@ func TestVerif_C19_reload2(t *testing.T) {
 	init := mk([]string{"10.0.0.0/8", "fc00::/7"}, nil, []string{"192.0.2.0/25"}, []string{`^metadata\.`})
 	init.Note = "A0"
 	confs := []c19Step{
-		{Conf: mk([]string{"192.168.0.0/16", "2001:db8:1::/48"}, nil, []string{"198.51.100.0/24"}, []string{`\.local$`})},
-		{Conf: mk([]string{"10.0.0.0/8"}, []string{"203.0.113.64/26", "2001:db8:ffff::/64"}, nil, nil)},
+		{Conf: mk([]string{"192.168.0.0/16", "2001:db8:1::/48", "::ffff:192.0.2.128/121"}, nil, []string{"::ffff:198.51.100.0/120", "2001:0DB8:0001:0000::/48"}, []string{`\.local$`})},
+		{Conf: mk([]string{"10.0.0.0/8"}, []string{"203.0.113.64/26", "2001:db8:ffff::/64", "0:0:0:0:0:ffff:a00:0/104"}, nil, nil)},
 		{Conf: mk([]string{"192.168.0.0/16", "not-a-cidr"}, nil, []string{"198.51.100.0/24"}, nil)},
 		{Conf: mk([]string{"192.168.0.0/16"}, nil, []string{"198.51.100.0/24 "}, nil)},
 		{Conf: mk([]string{"192.168.0.0/16"}, nil, nil, []string{"("})},
+		{Conf: mk([]string{"192.168.0.0/16"}, nil, nil, []string{`^metadata\.`, "(?i:intra", `\.local$`, "net)$"})},
 		{Conf: mk([]string{"192.168.0.0/16"}, nil, nil, nil, c19KV{Key: "ingest_worker_count", Mode: "malformed", Raw: `"many"`})},
 		{Conf: func() c19Conf { c := mk([]string{"192.168.0.0/16"}, nil, nil, nil); c.Garbage = "covert_blocklist_subnets = ["; return c }()},
 		{Conf: c19Conf{Note: "empty file"}},
